@@ -106,7 +106,10 @@ func (f Fault) expr() *Expr {
 		return SCall("boom", Int(f.N%3))
 	case "recursion":
 		// runaway recursion that grows the value stack (guarded by the stack limit)
-		switch f.N % 3 {
+		switch f.N % 4 {
+		case 3:
+			// argument independent self-application: the optimizer meets it while Generate runs
+			return Let("w", Lam([]string{"g"}, Call(Var("g"), Var("g"))), Call(Var("w"), Var("w")))
 		case 0:
 			return Func("f", []string{"n"}, Bin("+", Call(Var("f"), Bin("+", Var("n"), Int(1))), Int(1)), Call(Var("f"), Int(0)))
 		case 1:
@@ -121,7 +124,8 @@ func (f Fault) expr() *Expr {
 // ---- contexts ------------------------------------------------------------------------------
 
 var contexts = []string{"top", "closure", "seqMap", "seqAccept", "parMap", "parAccept", "behindParallel", "mergeOperand", "mergeComparator", "multiUseConsumer",
-	"multiUseSource", "orderKey", "orderLess", "lazyResult", "reduce", "mapValue", "switchCase", "nestedTry"}
+	"multiUseSource", "orderKey", "orderLess", "lazyResult", "reduce", "mapValue", "switchCase", "nestedTry",
+	"funcBody", "funcBodyNeverCalled", "nestedFuncBody", "mapMethodMap", "mapMethodAccept", "mapMethodReplace", "mapMethodCombine"}
 
 // contexts in which the fault is raised by the closure of a list stage of any kind
 // (Case.Stage) instead of a map closure
@@ -249,6 +253,22 @@ func inContext(ctx string, f *Expr) *Expr {
 		return Switch(Int(2), []*Expr{Int(1), Int(10), f, Int(20)}, Int(30))
 	case "nestedTry":
 		return Try(Try(f, SCall("throw", Str("T#1#"))), Int(5))
+	case "funcBody":
+		// the body of a func statement (compiled and optimized on a path of its own)
+		return Func("g", []string{"a"}, f, Call(Var("g"), Int(1)))
+	case "funcBodyNeverCalled":
+		return Func("g", []string{"a"}, f, Int(1))
+	case "nestedFuncBody":
+		return Func("h", []string{"b"}, Func("g", []string{"a"}, f, Call(Var("g"), Var("b"))), Call(Var("h"), Int(2)))
+	case "mapMethodMap":
+		// the closures of the MAP methods
+		return MCall(MCall(Map([]string{"a", "b", "c"}, []*Expr{Int(1), Int(2), Int(3)}), "map", Lam([]string{"k", "e"}, at(2, f))), "size")
+	case "mapMethodAccept":
+		return MCall(MCall(Map([]string{"a", "b", "c"}, []*Expr{Int(1), Int(2), Int(3)}), "accept", Lam([]string{"k", "e"}, Bin("=", at(2, f), e))), "size")
+	case "mapMethodReplace":
+		return MCall(MCall(Map([]string{"a", "b"}, []*Expr{Int(1), Int(2)}), "replace", Lam([]string{"m"}, Map([]string{"a"}, []*Expr{f}))), "size")
+	case "mapMethodCombine":
+		return MCall(MCall(Map([]string{"a", "b"}, []*Expr{Int(1), Int(2)}), "combine", Map([]string{"a", "b"}, []*Expr{Int(5), Int(6)}), Lam([]string{"e", "o"}, at(2, f))), "size")
 	}
 	panic("context " + ctx)
 }
@@ -423,7 +443,7 @@ func genFault(t *rapid.T) Fault {
 	case 10:
 		return Fault{Kind: "boom", N: rapid.IntRange(0, 2).Draw(t, "boom")}
 	default:
-		return Fault{Kind: "recursion", N: rapid.IntRange(0, 2).Draw(t, "rec")}
+		return Fault{Kind: "recursion", N: rapid.IntRange(0, 3).Draw(t, "rec")}
 	}
 }
 
@@ -461,7 +481,7 @@ func TestPropC05(t *testing.T) {
 		}
 		if c.Fault.Kind == "recursion" {
 			// the guarded recursion costs ~10 000 frames: keep it out of the slow contexts
-			c.Context = []string{"top", "closure", "mapValue", "nestedTry"}[rapid.IntRange(0, 3).Draw(t, "recCtx")]
+			c.Context = []string{"top", "closure", "mapValue", "nestedTry", "funcBody", "funcBodyNeverCalled", "nestedFuncBody"}[rapid.IntRange(0, 6).Draw(t, "recCtx")]
 			c.Stage = ""
 		}
 		evid.Pending(prop, "c05", c)
